@@ -15,6 +15,7 @@ import (
 	"os"
 	"path/filepath"
 	"reflect"
+	"regexp"
 	"runtime"
 	"sort"
 	"strings"
@@ -1203,7 +1204,7 @@ func classifyFailure(d *spec.Design, m *spec.Method, payload, result any, ex *si
 					continue
 				}
 				for _, v := range u.Views {
-					if (m.FixedView == "" || m.FixedView == v.Name) && nestedUnderSeveralViews(d, sv, u, v.Name) {
+					if (m.FixedView == "" || m.FixedView == v.Name) && nestedUnderSeveralViews(d, sv, m, u, v.Name) {
 						return "view:nested-type-under-several-views-in-one-service"
 					}
 				}
@@ -1811,7 +1812,7 @@ func judgeView(o *engine.Outcome, w *world, d *spec.Design, s *spec.Service, m *
 		}
 		return
 	}
-	if cerr != nil && strings.Contains(cerr.Error(), "is missing from") && nestedUnderSeveralViews(d, s, u, rendered) {
+	if cerr != nil && strings.Contains(cerr.Error(), "is missing from") && nestedUnderSeveralViews(d, s, m, u, rendered) {
 		o.Violate("view_client_error", "view:nested-type-under-several-views-in-one-service", "%s: rendering view %q failed at the client: %v\n  body %q", where, rendered, cerr, clipS(string(ex.RespBody)))
 		return
 	}
@@ -1838,7 +1839,7 @@ func judgeView(o *engine.Outcome, w *world, d *spec.Design, s *spec.Service, m *
 	}
 	if diff := gen.Diff(want, gotIn, ""); diff != "" && sameTypeTwoViews && underAffected(memoAffected(d, u, rendered), strings.TrimPrefix(diff, ".")) {
 		o.Violate("view_value", "view:same-nested-type-under-two-views", "%s: view %q: %s", where, rendered, diff)
-	} else if diff != "" && strings.Contains(diff, ".") && strings.Contains(diff, "got <unset>") && nestedUnderSeveralViews(d, s, u, rendered) {
+	} else if diff != "" && strings.Contains(diff, ".") && strings.Contains(diff, "got <unset>") && nestedUnderSeveralViews(d, s, m, u, rendered) {
 		// the same helper, silently: the attributes it does not copy are optional, so nothing complains
 		o.Violate("view_value", "view:nested-type-under-several-views-in-one-service", "%s: view %q: %s", where, rendered, diff)
 	} else if diff != "" {
@@ -2132,7 +2133,7 @@ func sameNestedTypeTwoViews(d *spec.Design, x *spec.UserType) bool {
 // nestedUnderSeveralViews reports whether rendering u with view reaches a nested result type that the SAME
 // service also renders, somewhere, with another view (recorded defect: the generated client has one
 // unmarshal helper per nested type NAME, built for whichever view was generated first).
-func nestedUnderSeveralViews(d *spec.Design, s *spec.Service, u *spec.UserType, view string) bool {
+func nestedUnderSeveralViews(d *spec.Design, s *spec.Service, cur *spec.Method, u *spec.UserType, view string) bool {
 	used := map[string]map[string]bool{}
 	var walk func(u *spec.UserType, view string, depth int, hit func(nu *spec.UserType))
 	walk = func(u *spec.UserType, view string, depth int, hit func(nu *spec.UserType)) {
@@ -2160,16 +2161,29 @@ func nestedUnderSeveralViews(d *spec.Design, s *spec.Service, u *spec.UserType, 
 			walk(nu, own, depth+1, hit)
 		}
 	}
+	// (the helpers only disagree when some method of the service fixes its view in the design: such a method's
+	// body types are projected, and a nested type projected with its default view keeps the plain type name that
+	// the full body types of the other methods use)
+	// ... and the helper that is generated FIRST wins: the methods that lose are the ones declared after that
+	// fixed-view method.
+	fixedReaches := map[string]bool{}
+	before := true
 	for _, m := range s.Methods {
+		if m == cur {
+			before = false
+		}
 		if ru := resultType(d, m); ru != nil {
 			for _, v := range ru.Views {
 				walk(ru, v.Name, 0, nil)
+			}
+			if m.FixedView != "" && before {
+				walk(ru, m.FixedView, 0, func(nu *spec.UserType) { fixedReaches[nu.Name] = true })
 			}
 		}
 	}
 	several := false
 	walk(u, view, 0, func(nu *spec.UserType) {
-		if len(used[nu.Name]) > 1 {
+		if len(used[nu.Name]) > 1 && fixedReaches[nu.Name] {
 			several = true
 		}
 	})
@@ -2262,8 +2276,12 @@ func memoHit(d *spec.Design, u *spec.UserType, view string, seen map[string]bool
 // panicCause gives a handler panic the signature of its structural cause when
 // that cause is recognisable from the design and the values, else of the
 // panicking function class.
+// responseCollectionFrame: the constructor of a collection response body (New<Type>Response<View>Collection; the
+// view name is left out for the default view).
+var responseCollectionFrame = regexp.MustCompile(`New\w+Response\w*Collection`)
+
 func panicCause(d *spec.Design, m *spec.Method, result any, ex *simnet.Exchange) string {
-	if (strings.Contains(ex.PanicStack, "ResponseBody") || strings.Contains(ex.PanicStack, "ResponseCollection")) && sameNestedTypeTwoViews(d, resultType(d, m)) {
+	if (strings.Contains(ex.PanicStack, "ResponseBody") || responseCollectionFrame.MatchString(ex.PanicStack)) && sameNestedTypeTwoViews(d, resultType(d, m)) {
 		return "view:same-nested-type-under-two-views"
 	}
 	if m.Result != nil && strings.Contains(ex.PanicStack, "Encode") {
